@@ -277,8 +277,47 @@ def find_model_jacobian(F, ev, b, env, model):
     return cands
 
 
+def column_source(val):
+    """(SRC matrix, column index term) if val denotes one column of SRC: `SRC.column(k)` or an
+    element of `SRC.column_iter()[.enumerate()]`"""
+    import effects as fx
+    v = val
+    while v[0] == "mutated":
+        v = v[1]
+    if v[0] == "call" and v[1].rsplit("::", 1)[-1] == "column" and len(v[3]) == 2:
+        return base_alloc(v[3][0]), v[3][1]
+    comp = iter_component(v)
+    if comp:
+        it, path, e = comp
+        if path == ("1",) and it[0] == "call" and it[1].rsplit("::", 1)[-1] == "enumerate":
+            src = fx.base_iter(it[3][0])
+            if src[0] == "call" and src[1].rsplit("::", 1)[-1] in ("column_iter", "column_iter_mut"):
+                return base_alloc(src[3][0]), ("field", e, "0")
+    return None
+
+
+def full_index_over(k, M, ev=None):
+    """k enumerates all columns of M: loop variable of 0..ncols(M) or the enumerate index of M's column iteration"""
+    import effects as fx
+    if k is None:
+        return False
+    if k[0] == "elem":
+        it = fx.base_iter(k[1])
+        if it[0] == "agg" and it[1].endswith("ops::Range") and dict(it[3]).get("start") == ("const", "usize", 0):
+            end = dimval(dict(it[3]).get("end"))
+            return end[0] == "call" and end[1].endswith("Matrix::ncols") and base_alloc(end[3][0]) == M
+    if k[0] == "field" and k[2] == "0" and k[1][0] == "elem":
+        it = fx.base_iter(k[1][1])
+        if it[0] == "call" and it[1].rsplit("::", 1)[-1] == "enumerate":
+            src = fx.base_iter(it[3][0])
+            return src[0] == "call" and src[1].rsplit("::", 1)[-1] in ("column_iter", "column_iter_mut") and base_alloc(src[3][0]) == M
+    return False
+
+
 def rule_model_jac(F, ev, R, config, rule="R-MODEL-JAC"):
-    """J = [Φ | (∂_idx Φ · c)_idx]: left block copied to columns idx, right block to idx + |left|"""
+    """J = [Φ | (∂_idx Φ · c)_idx]: left block copied to columns idx, right block to idx + |left|
+    (decided on the column writes the helper performs, in loop or iterator form)"""
+    import effects as fx
     b, env, f, s, sbi = ctor_fields(F, ev)
     a = args_by_type(b)
     cands = find_model_jacobian(F, ev, b, env, a["model"])
@@ -289,65 +328,67 @@ def rule_model_jac(F, ev, R, config, rule="R-MODEL-JAC"):
     jenv = Env(jb)
     model = ("param", jb.key, 1)
     cvec = ("param", jb.key, 2)
-    # the helper is called with (model, coefficients)
     av = [ev.operand(env, x, (jbi, None)) for x in jt["args"]]
     okargs = av[0] == a["model"] and av[1] in a.get("mats", [])
     R.add(rule, config, b.key, "J(model, coefficients)", okargs, "" if okargs else "Jacobian helper called with `%s`" % [short(x)[:40] for x in av], jt.get("span"))
-    # writes in the helper (concatenation inlined)
-    copies = []
-    for cid, head, args, t, body, bi in effect_calls(ev, jenv):
-        if cid.endswith("Matrix::copy_from"):
-            copies.append((args[0], args[1], t))
-    evl = ("payload", ("call",), "ok", "0")
-    nl_alloc = None
-    left_ok = right_ok = nl_ok = False
-    left_src = right_src = None
-    for recv, val, t in copies:
-        if recv[0] == "call" and recv[1].endswith("column_mut"):
-            dest, idx = recv[3]
-            dest = base_alloc(dest)
-            if val[0] == "call" and val[1].endswith("::column") and len(val[3]) == 2:
-                src, sidx = val[3]
-                srcb = base_alloc(src)
-                if idx == sidx and idx[0] == "elem" and idx[1][0] == "agg" and dict(idx[1][3]).get("start") == ("const", "usize", 0) \
-                        and dimval(dict(idx[1][3]).get("end")) == ("call", "nalgebra::Matrix::ncols", "nalgebra::Matrix", (src,), dict(idx[1][3]).get("end")[4]):
-                    left_ok = True
-                    left_src = srcb
-                    cat_alloc = dest
-                elif idx[0] == "bin" and idx[1] == "Add" and sidx[0] == "elem":
-                    x, y = idx[2], idx[3]
-                    off = y if x == sidx else (x if y == sidx else None)
-                    if off is not None and off[0] == "call" and off[1].endswith("Matrix::ncols") and left_src is not None and base_alloc(off[3][0]) == left_src:
-                        rng = dict(sidx[1][3]) if sidx[1][0] == "agg" else {}
-                        if rng.get("start") == ("const", "usize", 0) and dimval(rng.get("end"))[0] == "call" and dimval(rng.get("end"))[1].endswith("Matrix::ncols") and base_alloc(dimval(rng.get("end"))[3][0]) == srcb:
-                            right_ok = True
-                            right_src = srcb
-        elif recv[0] in ("field", "elem") or (recv[0] == "field" and recv[1][0] == "elem"):
-            # nonlinear block: col_idx.copy_from(eval_partial_deriv(model, idx) * c)
-            it = recv[1] if recv[0] == "field" else recv
-            e = it[1] if it[0] == "elem" else None
-            if e and e[0] == "call" and e[1].endswith("::enumerate") and e[3][0][0] == "call" and e[3][0][1].endswith("column_iter_mut"):
-                nl_alloc = base_alloc(e[3][0][3][0])
-                idx = ("field", it, "0")
-                if val[0] == "call" and val[1] == "std::ops::Mul::mul" and len(val[3]) == 2:
-                    d, c = val[3]
-                    d0 = ok_of(d)
-                    nl_ok = (d0 is not None and is_call(d0, TRAIT_MODEL + "::eval_partial_deriv") and d0[3] == (model, idx) and c == cvec
-                             and recv == ("field", it, "1"))
+    effs = list(fx.iteration_effects(ev, jenv))
+    writes = fx.column_writes(effs)
+    from rules_panic import nosite
+    evl = lambda t: t[0] == "payload" and is_call(t[1], TRAIT_MODEL + "::eval") and t[1][3] == (model,)
+    nl_ok = left_ok = right_ok = False
+    nl_alloc = cat_alloc = left_src = right_src = None
+    # 1. the nonlinear block: column idx ← ∂_idx Φ · c
+    for M, k, val, e in writes:
+        if val[0] == "call" and val[1] == "std::ops::Mul::mul" and len(val[3]) == 2:
+            d, c = val[3]
+            d0 = ok_of(d)
+            if d0 is not None and is_call(d0, TRAIT_MODEL + "::eval_partial_deriv"):
+                nl_alloc = M
+                nl_ok = d0[3][0] == model and d0[3][1] == k and c == cvec and full_index_over(k, M)
+    # 2. the concatenation
+    for M, k, val, e in writes:
+        cs = column_source(val)
+        if not cs:
+            continue
+        SRC, sk = cs
+        if nosite(k) == nosite(sk) and full_index_over(sk, SRC):
+            left_ok, left_src, cat_alloc = True, SRC, M
+    for M, k, val, e in writes:
+        cs = column_source(val)
+        if not cs or left_src is None:
+            continue
+        SRC, sk = cs
+        if k is not None and k[0] == "bin" and k[1] == "Add":
+            x, y = k[2], k[3]
+            off = y if nosite(x) == nosite(sk) else (x if nosite(y) == nosite(sk) else None)
+            if off is not None and full_index_over(sk, SRC) and M == cat_alloc:
+                o = dimval(off)
+                if o[0] == "call" and o[1].endswith("Matrix::ncols") and nosite(base_alloc(o[3][0])) == nosite(left_src):
+                    right_ok, right_src = True, SRC
     R.add(rule, config, jb.key, "nonlinear-block: col idx ← ∂_idx Φ · c", nl_ok,
           "" if nl_ok else "the derivative block is not filled with eval_partial_deriv(model, idx)·c at column idx", jb.j["span"])
     okalloc = False
-    if nl_alloc is not None and nl_alloc[0] == "call" and len(nl_alloc[3]) == 2:
+    if nl_alloc is not None and nl_alloc[0] == "call" and len(nl_alloc[3]) >= 2:
         r, c = dimval(nl_alloc[3][0]), dimval(nl_alloc[3][1])
         okalloc = is_call(r, TRAIT_MODEL + "::output_len") and is_call(c, TRAIT_MODEL + "::parameter_count")
-    R.add(rule, config, jb.key, "nonlinear-block: |S|×|P|", okalloc, "" if okalloc else "derivative block allocated as `%s`" % short(nl_alloc)[:120] if nl_alloc else "not found", jb.j["span"])
+    R.add(rule, config, jb.key, "nonlinear-block: |S|×|P|", okalloc, "" if okalloc else "derivative block allocated as `%s`" % (short(nl_alloc)[:120] if nl_alloc else None), jb.j["span"])
     R.add(rule, config, jb.key, "concat: left block at columns idx", left_ok, "" if left_ok else "left block is not copied column idx → column idx", jb.j["span"])
     R.add(rule, config, jb.key, "concat: right block at columns idx+|left|", right_ok, "" if right_ok else "right block is not copied column idx → column idx + ncols(left)", jb.j["span"])
-    okorder = (left_src is not None and right_src is not None and nl_alloc is not None and
-               left_src[0] == "payload" and is_call(left_src[1], TRAIT_MODEL + "::eval") and left_src[1][3] == (model,) and right_src == nl_alloc)
+    okorder = (left_src is not None and right_src is not None and nl_alloc is not None and evl(left_src) and nosite(right_src) == nosite(nl_alloc))
     R.add(rule, config, jb.key, "order: [Φ | derivatives]", okorder,
           "" if okorder else "the concatenation is not [eval(model) | derivative block]: left=%s right=%s" % (short(left_src)[:60] if left_src else None, short(right_src)[:60] if right_src else None), jb.j["span"])
-    R.floor(rule, config, 6, "six clauses of the model-function Jacobian")
+    # the concatenated matrix has |left| + |right| columns and is what the helper returns
+    okcat = False
+    if cat_alloc is not None and cat_alloc[0] == "call" and len(cat_alloc[3]) >= 2:
+        c = dimval(cat_alloc[3][1])
+        if c[0] == "bin" and c[1] == "Add":
+            srcs = set()
+            for x in (c[2], c[3]):
+                if x[0] == "call" and x[1].endswith("Matrix::ncols"):
+                    srcs.add(repr(nosite(base_alloc(x[3][0]))))
+            okcat = left_src is not None and right_src is not None and srcs == {repr(nosite(left_src)), repr(nosite(right_src))}
+    R.add(rule, config, jb.key, "concat: |left|+|right| columns", okcat, "" if okcat else "concatenation allocated as `%s`" % (short(cat_alloc)[:120] if cat_alloc else None), jb.j["span"])
+    R.floor(rule, config, 7, "seven clauses of the model-function Jacobian")
 
 
 def rule_covariance(F, ev_unused, R, config, rule="R-COVARIANCE"):
@@ -396,62 +437,95 @@ def rule_covariance(F, ev_unused, R, config, rule="R-COVARIANCE"):
     R.floor(rule, config, 1, "covariance formula")
 
 
+def iter_component(t):
+    """decompose `field(field(elem(IT), a), b)…` into (base iterator IT, path tuple) or None"""
+    import effects as fx
+    path = []
+    while t[0] == "field" and t[2] in ("0", "1"):
+        path.append(t[2])
+        t = t[1]
+    if t[0] != "elem":
+        return None
+    return fx.base_iter(t[1]), tuple(reversed(path)), t
+
+
+def enumerated_index_of(ptr):
+    """for an element `x` taken from `enumerate(IT)` (path …,'1') return the matching index term (…,'0')"""
+    if ptr[0] == "field" and ptr[2] == "1":
+        return ("field", ptr[1], "0")
+    return None
+
+
 def rule_var_slices(F, ev_unused, R, config, rule="R-VAR-SLICES"):
+    """variance accessors = the diagonal segments [0,|B|) and [|B|,|B|+|P|) of the covariance —
+    decided on the element stores the accessor performs (whatever helpers/loop forms it uses)"""
+    import effects as fx
     ev0 = Eval(F, opaque=[k for k in F.bodies if " as std::ops::Mul<" in k])
     sr = stats_roles(F, ev0)
-    # the range helper: local fn called by both accessors
     lin = inherent_methods(F, ADT_STATS, "linear_coefficients_variance")[0]
     non = inherent_methods(F, ADT_STATS, "nonlinear_parameters_variance")[0]
-    helpers = set()
-    for b in (lin, non):
-        for bi, t in b.calls():
-            if "fn" in t and t["fn"].get("key") in F.bodies:
-                helpers.add(t["fn"]["key"])
-    if len(helpers) != 1:
-        R.bad(rule, config, lin.key, "anchor-missing", "range helper not identified: %s" % sorted(helpers))
-        return
-    hk = helpers.pop()
-    hb = F.bodies[hk]
-    # helper: out[idx] = v[idx + start], out allocated with end − start rows
-    henv = Env(hb)
-    vals = final_deref_values(ev0, henv)
-    okh = False
-    for ptr, v in vals.items():
-        if v[0] == "call" and v[1].endswith("Index::index") and v[3][0] == ("param", hb.key, 1):
-            ix = v[3][1]
-            if ix[0] == "tuple" and ix[1][0][0] == "bin" and ix[1][0][1] == "Add":
-                x, y = ix[1][0][2], ix[1][0][3]
-                e = ptr[1] if ptr[0] == "field" else None
-                for i, st in ((x, y), (y, x)):
-                    if e is not None and i == ("field", e, "0") and ptr == ("field", e, "1") and dimval(st) == ("param", hb.key, 2):
-                        en = e[1] if e[0] == "elem" else None
-                        if en and en[0] == "call" and en[1].endswith("::enumerate") and en[3][0][0] == "call" and en[3][0][1].endswith("iter_mut"):
-                            al = base_alloc(en[3][0][3][0])
-                            if al[0] == "call" and dimval(al[3][0]) == ("bin", "Sub", ("param", hb.key, 3), ("param", hb.key, 2)):
-                                okh = True
-    R.add(rule, config, hk, "range-helper: out[i]=v[i+start], len=end−start", okh, "" if okh else "the range helper does not copy v[idx+start] into a vector of end−start entries", hb.j["span"])
-    ev = Eval(F, opaque=[hk])
     for b, which in ((lin, "lin"), (non, "non")):
-        ev.fresh_ctx()
-        v = ev.ret_val(Env(b))
-        ok = False
-        msg = "returns `%s`" % short(v)[:200]
         me = ("param", b.key, 1)
-        if v[0] == "call" and len(v[3]) == 3:
-            d, st, en = v[3]
-            okd = d[0] == "call" and d[1].endswith("::diagonal") and d[3][0] == ("field", me, sr["cov"])
-            st, en = dimval(st), dimval(en)
-            L, P = ("field", me, sr["lin"]), ("field", me, sr["nonlin"])
-            if which == "lin":
-                okr = (st[0] == "constitem" and st[1].endswith("U0") or st == ("const", "usize", 0)) and en == L
-            else:
-                okr = st == L and en[0] == "bin" and en[1] == "Add" and {en[2], en[3]} == {L, P}
-            ok = okd and okr
-            if not okd:
-                msg = "slices `%s`, not the diagonal of the covariance" % short(d)[:100]
-            elif not okr:
-                msg = "range [%s, %s) is not the %s segment" % (short(st), short(en), "linear [0,|B|)" if which == "lin" else "nonlinear [|B|,|B|+|P|)")
+        L, P = ("field", me, sr["lin"]), ("field", me, sr["nonlin"])
+        env = Env(b)
+        effs = list(fx.iteration_effects(ev0, env))
+        stores = [e for e in effs if e.kind == "store"]
+        ok = False
+        msg = "the accessor performs %d element stores (expected one store per element of the returned vector)" % len(stores)
+        if len(stores) == 1:
+            ptr, val = stores[0].args
+            comp = iter_component(ptr)
+            idx = enumerated_index_of(ptr)
+            msg = "element store `%s ← %s` not recognised" % (short(ptr)[:80], short(val)[:100])
+            if comp and idx is not None:
+                it = comp[0]
+                src = it
+                while src[0] == "call" and src[1].rsplit("::", 1)[-1] in ("enumerate", "into_iter"):
+                    src = fx.base_iter(src[3][0])
+                out_alloc = base_alloc(src[3][0]) if src[0] == "call" and src[1].rsplit("::", 1)[-1] == "iter_mut" else None
+                # value = V[(idx + start, 0)] (or V[idx + start])
+                okv = False
+                start = None
+                V = None
+                if val[0] == "call" and val[1].endswith("Index::index") and len(val[3]) == 2:
+                    V, ix = val[3]
+                    i0 = ix[1][0] if ix[0] == "tuple" else ix
+                    if i0 == idx:
+                        start, okv = ("const", "usize", 0), True
+                    elif i0[0] == "bin" and i0[1] == "Add" and idx in (i0[2], i0[3]):
+                        start = dimval(i0[3] if i0[2] == idx else i0[2])
+                        okv = True
+                okd = V is not None and V[0] == "call" and V[1].endswith("::diagonal") and V[3][0] == ("field", me, sr["cov"])
+                if not okv:
+                    msg = "element value `%s` is not v[idx + start]" % short(val)[:100]
+                elif not okd:
+                    msg = "slices `%s`, not the diagonal of the covariance" % short(V)[:100]
+                else:
+                    zero = lambda t: t == ("const", "usize", 0) or (t[0] == "constitem" and t[1].endswith("U0")) or t == ("n", 0)
+                    n_out = dimval(out_alloc[3][0]) if out_alloc is not None and out_alloc[0] == "call" and out_alloc[3] else None
+                    def sub_eq(n_, end_, start_):
+                        if n_ is None:
+                            return False
+                        if n_ == ("bin", "Sub", end_, start_):
+                            return True
+                        return zero(start_) and n_ == end_
+                    if which == "lin":
+                        okr = zero(start) and (sub_eq(n_out, L, start) or n_out == L)
+                        seg = "linear [0,|B|)"
+                    else:
+                        LP = [("bin", "Add", L, P), ("bin", "Add", P, L)]
+                        okr = start == L and any(sub_eq(n_out, e_, L) for e_ in LP)
+                        seg = "nonlinear [|B|,|B|+|P|)"
+                    ok = okr
+                    if not okr:
+                        msg = "range start `%s`, length `%s` is not the %s segment" % (short(start), short(n_out) if n_out else None, seg)
         R.add(rule, config, b.key, "diag-segment", ok, "" if ok else msg, b.j["span"])
+        # the returned value is that vector
+        ev0.fresh_ctx()
+        rv = base_alloc(ev0.ret_val(env))
+        from rules_panic import nosite
+        okret = len(stores) == 1 and ok and out_alloc is not None and nosite(rv) == nosite(out_alloc)
+        R.add(rule, config, b.key, "returns-the-filled-vector", okret, "" if okret else "the accessor does not return the vector it fills", b.j["span"])
     # count roles initialised from the matching model count
     b, env, f, s, _ = ctor_fields(F, ev0)
     a = args_by_type(b)
@@ -459,116 +533,137 @@ def rule_var_slices(F, ev_unused, R, config, rule="R-VAR-SLICES"):
     R.add(rule, config, b.key, "linear-count=base_function_count", ok, "" if ok else "linear coefficient count initialised with `%s`" % short(f[sr["lin"]])[:100], s.get("span"))
     ok = f[sr["nonlin"]][0] == "call" and f[sr["nonlin"]][1] == TRAIT_MODEL + "::parameter_count" and f[sr["nonlin"]][3] == (a["model"],)
     R.add(rule, config, b.key, "nonlinear-count=parameter_count", ok, "" if ok else "nonlinear parameter count initialised with `%s`" % short(f[sr["nonlin"]])[:100], s.get("span"))
-    R.floor(rule, config, 5, "helper, two accessors, two counts")
+    R.floor(rule, config, 6, "two accessors × (segment, return) + two counts")
+
+
+def resolve_collected(t, ev):
+    """`x` taken from `enumerate(iter(collect(map(0..n, f))))` is f(index): rewrite such an element
+    to the closure applied to the matching index (a Vec built by mapping over a 0-based range)"""
+    import effects as fx
+    if t[0] == "field" and t[2] == "1" and t[1][0] == "elem":
+        it = fx.base_iter(t[1][1])
+        if it[0] == "call" and it[1].rsplit("::", 1)[-1] == "enumerate":
+            src = fx.base_iter(it[3][0])
+            while src[0] == "call" and src[1].rsplit("::", 1)[-1] in ("iter", "into_iter"):
+                src = fx.base_iter(src[3][0])
+            if src[0] == "call" and src[1].rsplit("::", 1)[-1] == "collect":
+                m = fx.base_iter(src[3][0])
+                if m[0] == "call" and m[1].rsplit("::", 1)[-1] == "map" and m[3][1][0] == "closure":
+                    rng = fx.base_iter(m[3][0])
+                    if rng[0] == "agg" and rng[1].endswith("ops::Range") and dict(rng[3]).get("start") == ("const", "usize", 0):
+                        cb = ev.facts.bodies.get(m[3][1][1])
+                        if cb is not None:
+                            idx = ("field", t[1], "0")
+                            v = ev.ret_val(Env(cb, {1: m[3][1], 2: idx}, 2))
+                            return v, dict(rng[3]).get("end")
+    return None, None
 
 
 def rule_correlation(F, ev, R, config, rule="R-CORRELATION"):
+    import effects as fx
     acc = inherent_methods(F, ADT_STATS, "calculate_correlation_matrix")
     if len(acc) != 1:
         R.bad(rule, config, "-", "anchor-missing", "calculate_correlation_matrix")
         return
-    hk = None
-    for bi, t in acc[0].calls():
-        if "fn" in t and t["fn"].get("key") in F.bodies:
-            hk = t["fn"]["key"]
-            env0 = Env(acc[0])
-            arg = ev.operand(env0, t["args"][0], (bi, None))
-            sr = stats_roles(F, ev)
-            ok = arg == ("field", ("param", acc[0].key, 1), sr["cov"])
-            R.add(rule, config, acc[0].key, "correlation-of-the-covariance", ok, "" if ok else "computed from `%s`" % short(arg)[:80], t.get("span"))
-    if hk is None:
-        R.bad(rule, config, acc[0].key, "anchor-missing", "correlation helper not found")
-        return
-    hb = F.bodies[hk]
-    env = Env(hb)
-    cov = ("param", hb.key, 1)
-    vals = final_deref_values(ev, env)
+    ab = acc[0]
+    sr = stats_roles(F, ev)
+    env0 = Env(ab)
+    cov = ("field", ("param", ab.key, 1), sr["cov"])
+    effs = list(fx.iteration_effects(ev, env0))
+    stores = [e for e in effs if e.kind == "store" and e.args[0][0] == "call" and e.args[0][1].endswith("IndexMut::index_mut")]
     ok = False
-    msg = "no element write found"
-    for ptr, v in vals.items():
-        if not (ptr[0] == "call" and ptr[1].endswith("IndexMut::index_mut")):
-            continue
+    msg = "expected one element store corr[(i,j)] = …, found %d" % len(stores)
+    hb = None
+    if len(stores) == 1:
+        e = stores[0]
+        hb = e.body
+        ptr, v = e.args
         dest, ix = ptr[3]
         al = base_alloc(dest)
         if ix[0] != "tuple" or len(ix[1]) != 2:
             msg = "element index `%s`" % short(ix)[:80]
-            continue
-        i, j = ix[1]
-        okalloc = al[0] == "call" and [dimval(x) for x in al[3][:2]] == [("call", "nalgebra::Matrix::nrows", "nalgebra::Matrix", (cov,), dimval(al[3][0])[4]),
-                                                                          ("call", "nalgebra::Matrix::ncols", "nalgebra::Matrix", (cov,), dimval(al[3][1])[4])]
-
-        def rng_over(e, dimname):
-            if e[0] != "elem" or e[1][0] != "agg":
-                return False
-            r = dict(e[1][3])
-            end = dimval(r.get("end"))
-            return r.get("start") == ("const", "usize", 0) and end[0] == "call" and end[1].endswith("Matrix::" + dimname) and base_alloc(end[3][0]) in (al, cov)
-        okloops = rng_over(i, "nrows") and rng_over(j, "ncols") and i != j
-        okv = False
-        if v[0] == "call" and v[1] == "std::ops::Div::div":
-            num, den = v[3]
-            idx = lambda a_, b_: ("call", "std::ops::Index::index", "nalgebra::Matrix", (cov, ("tuple", (a_, b_))), None)
-            def is_idx(t, a_, b_):
-                return t[0] == "call" and t[1].endswith("Index::index") and t[3][0] == cov and t[3][1] == ("tuple", (a_, b_))
-            okn = is_idx(num, i, j) or is_idx(num, j, i)
-            okd = False
-            if den[0] == "call" and den[1].endswith("::sqrt"):
-                p = den[3][0]
-                if p[0] == "call" and p[1] == "std::ops::Mul::mul":
-                    x, y = p[3]
-                    okd = (is_idx(x, i, i) and is_idx(y, j, j)) or (is_idx(x, j, j) and is_idx(y, i, i))
-            okv = okn and okd
-            if not okn:
-                msg = "numerator `%s` is not cov(i,j)" % short(num)[:100]
-            elif not okd:
-                msg = "denominator `%s` is not sqrt(cov(i,i)·cov(j,j))" % short(den)[:140]
         else:
-            msg = "element value `%s`" % short(v)[:120]
-        if okv and not okloops:
-            msg = "loops do not range over the full square"
-        if okv and not okalloc:
-            msg = "result not allocated with the covariance's shape"
-        ok = okv and okloops and okalloc
-    R.add(rule, config, hk, "corr(i,j)=cov(i,j)/sqrt(cov(i,i)cov(j,j))", ok, "" if ok else msg, hb.j["span"])
+            i, j = ix[1]
+
+            def idx_space(t):
+                """(which dimension of cov the index ranges over fully) for a loop index term"""
+                if t[0] == "elem":
+                    it = fx.base_iter(t[1])
+                    if it[0] == "agg" and it[1].endswith("ops::Range") and dict(it[3]).get("start") == ("const", "usize", 0):
+                        end = dimval(dict(it[3]).get("end"))
+                        if end[0] == "call" and end[1].rsplit("::", 1)[-1] in ("nrows", "ncols") and base_alloc(end[3][0]) in (al, cov):
+                            return end[1].rsplit("::", 1)[-1]
+                if t[0] == "field" and t[2] == "0" and t[1][0] == "elem":
+                    val, end = resolve_collected(("field", t[1], "1"), ev)
+                    if end is not None:
+                        end = dimval(end)
+                        if end[0] == "call" and end[1].rsplit("::", 1)[-1] in ("nrows", "ncols") and base_alloc(end[3][0]) in (al, cov):
+                            return end[1].rsplit("::", 1)[-1]
+                return None
+            si, sj = idx_space(i), idx_space(j)
+            okloops = si is not None and sj is not None and i != j
+            okalloc = al[0] == "call" and len(al[3]) >= 2 and all(
+                (lambda d: d[0] == "call" and d[1].rsplit("::", 1)[-1] in ("nrows", "ncols") and d[3][0] == cov)(dimval(x)) for x in al[3][:2])
+
+            def is_idx(t, a_, b_):
+                if t[0] == "call" and t[1].endswith("Index::index") and t[3][0] == cov and t[3][1] == ("tuple", (a_, b_)):
+                    return True
+                r, _ = resolve_collected(t, ev)
+                if r is not None and a_ == b_ and t[0] == "field" and ("field", t[1], "0") == a_:
+                    return r[0] == "call" and r[1].endswith("Index::index") and r[3][0] == cov and r[3][1] == ("tuple", (a_, a_))
+                return False
+            okv = False
+            if v[0] == "call" and v[1] == "std::ops::Div::div":
+                num, den = v[3]
+                okn = is_idx(num, i, j) or is_idx(num, j, i)
+                okd = False
+                if den[0] == "call" and den[1].endswith("::sqrt"):
+                    p_ = den[3][0]
+                    if p_[0] == "call" and p_[1] == "std::ops::Mul::mul":
+                        x, y = p_[3]
+                        okd = (is_idx(x, i, i) and is_idx(y, j, j)) or (is_idx(x, j, j) and is_idx(y, i, i))
+                okv = okn and okd
+                if not okn:
+                    msg = "numerator `%s` is not cov(i,j)" % short(num)[:100]
+                elif not okd:
+                    msg = "denominator `%s` is not sqrt(cov(i,i)·cov(j,j))" % short(den)[:140]
+            else:
+                msg = "element value `%s`" % short(v)[:120]
+            if okv and not okloops:
+                msg = "loops do not range over the full square"
+            if okv and not okalloc:
+                msg = "result not allocated with the covariance's shape"
+            ok = okv and okloops and okalloc
+    R.add(rule, config, ab.key, "corr(i,j)=cov(i,j)/sqrt(cov(i,i)cov(j,j))", ok, "" if ok else msg, ab.j["span"])
     # every element is written: the write lies on every path through the innermost loop body
-    wblocks = set()
-    for bi, si, st in hb.stmts():
-        if st["k"] == "assign" and st["place"]["proj"] and st["place"]["proj"][0]["k"] == "deref" and len(st["place"]["proj"]) == 1:
-            ptr = ev.lookup(env, (st["place"]["l"], ()), (bi, si))
-            while ptr[0] == "update":
-                ptr = ptr[1]
-            if ptr[0] == "call" and ptr[1].endswith("IndexMut::index_mut"):
-                wblocks.add(bi)
-    loops = hb.natural_loops()
     okw = False
     msgw = "no element write inside a loop"
-    for wb in wblocks:
+    if hb is not None:
+        wb = stores[0].block
+        loops = hb.natural_loops()
         inner = [(h, blk) for h, blk in loops.items() if wb in blk]
-        if not inner:
-            continue
-        h, blk = min(inner, key=lambda x: len(x[1]))
-        # body entry: the Some edge of the loop's next()
-        entry = None
-        for lb in blk:
-            t = hb.blocks[lb]["term"]
-            if t["k"] == "call" and "fn" in t and callee_id(t["fn"]) == "std::iter::Iterator::next":
-                for c in consumers(hb, t["dest"]["l"]):
-                    if c["kind"] == "discr" and hb.blocks[c["block"]]["term"]["k"] == "switch" and c["block"] in blk:
-                        yes, no = variant_edge(hb, c["block"], "Some")
-                        if yes:
-                            cand = yes[0][1]
-                            # innermost loop: the one whose header region is closest
-                            if entry is None or len([x for x in hb.reachable(cand, avoid=[h]) if x in blk]) < len([x for x in hb.reachable(entry, avoid=[h]) if x in blk]):
-                                entry = cand
-        if entry is None:
-            msgw = "loop structure not recognised"
-            continue
-        r = hb.reachable(entry, avoid={wb})
-        okw = h not in r
-        if not okw:
-            msgw = "an iteration of the loop can skip writing the correlation entry (it keeps its initial value): the matrix is no longer the normalised covariance"
-    R.add(rule, config, hk, "every-entry-written", okw, "" if okw else msgw, hb.j["span"])
-    R.floor(rule, config, 3, "accessor + element formula + every entry written")
+        if inner:
+            h, blk = min(inner, key=lambda x: len(x[1]))
+            entry = None
+            for lb in blk:
+                t = hb.blocks[lb]["term"]
+                if t["k"] == "call" and "fn" in t and callee_id(t["fn"]) == "std::iter::Iterator::next":
+                    for c in consumers(hb, t["dest"]["l"]):
+                        if c["kind"] == "discr" and hb.blocks[c["block"]]["term"]["k"] == "switch" and c["block"] in blk:
+                            yes, no = variant_edge(hb, c["block"], "Some")
+                            if yes:
+                                cand = yes[0][1]
+                                if entry is None or len([x for x in hb.reachable(cand, avoid=[h]) if x in blk]) < len([x for x in hb.reachable(entry, avoid=[h]) if x in blk]):
+                                    entry = cand
+            if entry is None:
+                msgw = "loop structure not recognised"
+            else:
+                r = hb.reachable(entry, avoid={wb})
+                okw = h not in r
+                if not okw:
+                    msgw = "an iteration of the loop can skip writing the correlation entry (it keeps its initial value): the matrix is no longer the normalised covariance"
+    R.add(rule, config, ab.key, "every-entry-written", okw, "" if okw else msgw, ab.j["span"])
+    R.floor(rule, config, 2, "element formula + every entry written")
 
 
 def affine_in(t, x):
@@ -685,74 +780,83 @@ def rule_band(F, ev, R, config, rule="R-BAND"):
             break
     ok = t == ("field", me, sr["dof"])
     R.add(rule, config, b.key, "nu=degrees-of-freedom", ok, "" if ok else "degrees of freedom handed to the quantile are `%s`, not the stored N−M−P" % short(nu)[:120], pt.get("span"))
-    # --- radius_i = t · sigma_i, aligned
+    # --- radius_i = t · sigma_i, aligned (element stores, closure or loop form)
+    import effects as fx
     okr = False
     msg = "radius elements not recognised"
     tq = ev.call_val(env, pbi)
-    for cid, head, args, t, body, bi in effect_calls(ev, env):
-        if cid.endswith("Iterator::for_each") and args[1][0] == "closure":
-            z = args[0]
-            if z[0] == "call" and z[1].endswith("::zip"):
-                o, i = z[3]
-                oko = o[0] == "call" and o[1].endswith("iter_mut")
-                oki = i[0] == "call" and i[1].endswith("::iter") and i[3][0] == ("field", me, sr["sigma"])
-                outm = base_alloc(o[3][0]) if oko else None
-                okout = outm is not None and outm[0] == "call" and dimval(outm[3][0])[0] == "call" and dimval(outm[3][0])[1].endswith("Matrix::nrows") and dimval(outm[3][0])[3][0] == ("field", me, sr["sigma"])
-                cb = F.bodies[args[1][1]]
-                cenv = Env(cb, {1: args[1], 2: ("tuple", (("sym", "out"), ("sym", "in")))}, 1)
-                vals = final_deref_values(ev, cenv)
-                v = vals.get(("sym", "out"))
-                okv = False
-                if v and v[0] == "call" and v[1].endswith("CastF64::from_f64"):
-                    m = v[3][0]
-                    if m[0] == "bin" and m[1] == "Mul":
-                        fs_ = {m[2], m[3]}
-                        okv = tq in fs_ and any(y[0] == "call" and y[1].endswith("CastF64::into_f64") and y[3] == (("sym", "in"),) for y in fs_)
-                okr = oko and oki and okout and okv
-                if not okv:
-                    msg = "radius element is `%s`, expected t·σ_i" % (short(v)[:120] if v else None)
-                elif not (oko and oki and okout):
-                    msg = "radius and sigma are not iterated in lock-step over the samples"
+    from rules_panic import nosite
+    stores = [e for e in fx.iteration_effects(ev, env) if e.kind == "store"]
+    for e in stores:
+        ptr, v = e.args
+        comp = iter_component(ptr)
+        if not comp:
+            continue
+        it, path, el = comp
+        if not (it[0] == "call" and it[1].rsplit("::", 1)[-1] == "zip" and len(path) == 1):
+            msg = "radius and sigma are not iterated in lock-step over the samples"
+            continue
+        o, i = fx.base_iter(it[3][int(path[0])]), fx.base_iter(it[3][1 - int(path[0])])
+        sig_el = ("field", el, str(1 - int(path[0])))
+        oko = o[0] == "call" and o[1].endswith("iter_mut")
+        oki = i[0] == "call" and i[1].endswith("::iter") and i[3][0] == ("field", me, sr["sigma"])
+        outm = base_alloc(o[3][0]) if oko else None
+        okout = outm is not None and outm[0] == "call" and dimval(outm[3][0])[0] == "call" and dimval(outm[3][0])[1].endswith("Matrix::nrows") and dimval(outm[3][0])[3][0] == ("field", me, sr["sigma"])
+        okv = False
+        if v[0] == "call" and v[1].endswith("CastF64::from_f64"):
+            m = v[3][0]
+            if m[0] == "bin" and m[1] == "Mul":
+                fs_ = (m[2], m[3])
+                okv = any(nosite(y) == nosite(tq) for y in fs_) and any(y[0] == "call" and y[1].endswith("CastF64::into_f64") and y[3] == (sig_el,) for y in fs_)
+        okr = oko and oki and okout and okv
+        if not okv:
+            msg = "radius element is `%s`, expected t·σ_i" % short(v)[:120]
+        elif not (oko and oki and okout):
+            msg = "radius and sigma are not iterated in lock-step over the samples"
     R.add(rule, config, b.key, "radius_i=t·sigma_i", okr, "" if okr else msg, b.j["span"])
-    # --- sigma_i = sqrt(j_iᵀ Cov j_i) over rows of the unweighted J (constructor)
+    # --- sigma_i = sqrt(j_iᵀ Cov j_i) over rows of the unweighted J (constructor, possibly via a helper)
     cb_, cenv_, f, s, _ = ctor_fields(F, ev)
     a = args_by_type(cb_)
     oks = False
     msg = "sigma not recognised"
-    for cid, head, args, t, body, bi in effect_calls(ev, cenv_):
-        if cid.endswith("Iterator::for_each") and args[1][0] == "closure" and body is cb_:
-            z = args[0]
-            if z[0] == "call" and z[1].endswith("::zip"):
-                o, i = z[3]
-                oko = o[0] == "call" and o[1].endswith("iter_mut") and base_alloc(o[3][0]) == base_alloc(f[sr["sigma"]])
-                okrow = i[0] == "call" and i[1].endswith("row_iter")
-                Jt = i[3][0] if okrow else None
-                # J must be the unweighted Jacobian: no weight factor
-                okJ = Jt is not None and not contains(Jt, lambda y: y[0] == "call" and y[1] == "std::ops::Mul::mul" and y[2] in (ADT_WEIGHTS, ADT_DIAG))
-                clo = F.bodies[args[1][1]]
-                cenv2 = Env(clo, {1: args[1], 2: ("tuple", (("sym", "out"), ("sym", "in")))}, 1)
-                v = final_deref_values(ev, cenv2).get(("sym", "out"))
-                okv = False
-                if v and v[0] == "call" and v[1].endswith("::sqrt"):
-                    d = v[3][0]
-                    if d[0] == "call" and d[1].endswith("::dot"):
-                        jT = ("call", "nalgebra::Matrix::transpose", "nalgebra::Matrix", (("sym", "in"),), None)
-                        l, r = d[3]
-                        def isjt(y):
-                            return y[0] == "call" and y[1].endswith("Matrix::transpose") and y[3] == (("sym", "in"),)
-                        okv = isjt(l) and r[0] == "call" and r[1] == "std::ops::Mul::mul" and r[3][0] == f[sr["cov"]] and isjt(r[3][1])
-                oks = oko and okrow and okJ and okv
-                if not okrow:
-                    msg = "sigma does not iterate over the rows of the Jacobian (one per sample)"
-                elif not okJ:
-                    msg = "sigma uses the weighted Jacobian; the band of the fitted curve needs the unweighted one"
-                elif not okv:
-                    msg = "sigma_i is `%s`, expected sqrt(j_iᵀ·Cov·j_i)" % (short(v)[:160] if v else None)
-                elif not oko:
-                    msg = "sigma is not written into the stored vector"
+    sig_alloc = base_alloc(f[sr["sigma"]])
+    for e in fx.iteration_effects(ev, cenv_):
+        if e.kind != "store":
+            continue
+        ptr, v = e.args
+        comp = iter_component(ptr)
+        if not comp:
+            continue
+        it, path, el = comp
+        if not (it[0] == "call" and it[1].rsplit("::", 1)[-1] == "zip" and len(path) == 1):
+            continue
+        o, i = fx.base_iter(it[3][int(path[0])]), fx.base_iter(it[3][1 - int(path[0])])
+        row_el = ("field", el, str(1 - int(path[0])))
+        oko = o[0] == "call" and o[1].endswith("iter_mut") and nosite(base_alloc(o[3][0])) == nosite(sig_alloc)
+        if not oko:
+            continue
+        okrow = i[0] == "call" and i[1].endswith("row_iter")
+        Jt = i[3][0] if okrow else None
+        okJ = Jt is not None and not contains(Jt, lambda y: y[0] == "call" and y[1] == "std::ops::Mul::mul" and y[2] in (ADT_WEIGHTS, ADT_DIAG))
+
+        def isjt(y):
+            return y[0] == "call" and y[1].endswith("Matrix::transpose") and y[3] == (row_el,)
+        okv = False
+        if v[0] == "call" and v[1].endswith("::sqrt"):
+            d = v[3][0]
+            if d[0] == "call" and d[1].endswith("::dot"):
+                l, r = d[3]
+                okv = isjt(l) and r[0] == "call" and r[1] == "std::ops::Mul::mul" and nosite(r[3][0]) == nosite(f[sr["cov"]]) and isjt(r[3][1])
+        oks = okrow and okJ and okv
+        if not okrow:
+            msg = "sigma does not iterate over the rows of the Jacobian (one per sample)"
+        elif not okJ:
+            msg = "sigma uses the weighted Jacobian; the band of the fitted curve needs the unweighted one"
+        elif not okv:
+            msg = "sigma_i is `%s`, expected sqrt(j_iᵀ·Cov·j_i)" % short(v)[:160]
     R.add(rule, config, cb_.key, "sigma_i=sqrt(j_iᵀ·Cov·j_i),rows-of-unweighted-J", oks, "" if oks else msg, s.get("span"))
     # sigma vector has |S| entries
-    al = base_alloc(f[sr["sigma"]])
+    al = sig_alloc
     okl = al[0] == "call" and is_call(dimval(al[3][0]), TRAIT_MODEL + "::output_len")
     R.add(rule, config, cb_.key, "sigma-has-one-entry-per-sample", okl, "" if okl else "sigma allocated as `%s`" % short(al)[:100], s.get("span"))
     R.floor(rule, config, 9, "precondition 3 + panic + quantile + nu + radius + sigma + length")
